@@ -26,7 +26,9 @@ RULE = ("A1: one rule t(H1,H2) :- G1..Gn (n<=3 quick, 4 thorough) over leaf goal
         "or two q3/3 calls (register shuffles); B: every control tree with <=5 (quick) / <=6 (thorough) nodes over "
         "{true,fail,X=a,X=b,Y=X,r(X),!} and {',',;,->,->;,\\+,call/1}, directly in a 2-clause predicate and nested "
         "through a helper; C: every conjunction of <=3 goals over {!,fail,true,r(X),X=a} containing a cut as the condition of "
-        "if-then(-else), under \\+ and under call/1. 3-4 queries per program (open, first/second argument bound, structure). "
+        "if-then(-else), under \\+ and under call/1; D: if-then without else, if-then-else, \\+ and call/1 as the last goal of "
+        "a non-final disjunct, preceded by 0..2 goals with 0..2 solutions each, in 2- and 3-branch disjunctions, with "
+        "and without a following goal, in a clause body and under call/1. 3-4 queries per program (open, first/second argument bound, structure). "
         "A case is one (program, query). Non-trivial: REF's run resumes a choice point at least once or executes a "
         "cut that removes at least one choice point.")
 LEVEL_TEXT = ("exhaustive within the stated program-size bound; the oracle is an independent interpreter, so any "
@@ -43,10 +45,10 @@ def bound_text(tier):
         return ("A1 bodies n<=2 over 14 leaves x 5 heads, n=3 over 6 leaves x 3 heads (all sharing patterns <=4 vars), "
                 "n=4 over 3 leaves (<=3 vars); A2 all control skeletons x 3 pre x 4 post x all slot assignments "
                 "(4 names up to 5 slots, 3 names for 6, 2 names above); A3 incl. structure arguments; "
-                "B all control trees <=6 nodes x 2 contexts; C cut-in-condition family")
+                "B all control trees <=6 nodes x 2 contexts; C cut-in-condition family; D control construct ending a non-final disjunct")
     return ("A1 bodies n<=2 over 9 leaves x 5 heads x all sharing patterns <=4 vars, n=3 over 4 leaves x 2 heads <=3 vars; "
             "A2 all control skeletons x 2 pre x 2 post x all slot assignments; A3 4352 argument assignments; "
-            "B all control trees <=5 nodes x 2 contexts; C cut-in-condition family (all conjunctions <=3 goals)")
+            "B all control trees <=5 nodes x 2 contexts; C cut-in-condition family (all conjunctions <=3 goals); D control construct ending a non-final disjunct (all 25 168 bodies)")
 
 
 # ---------------------------------------------------------------------------
@@ -115,6 +117,8 @@ def shards(tier):
     maxsize = 6 if tier == "thorough" else 5
     sh.append(("C", 0, 2))
     sh.append(("C", 1, 2))
+    for k in range(12):
+        sh.append(("D", k, 12))
     for ctx in ("plain", "nested"):
         sh.append(("B", 1, 4, ctx, 0, 1))
         sh.append(("B", 5, 5, ctx, 0, 4))
@@ -141,6 +145,10 @@ def programs(shard, tier):
                 yield p
     elif fam == "A3":
         for i, p in enumerate(S.a3_programs(tier)):
+            if i % shard[2] == shard[1]:
+                yield p
+    elif fam == "D":
+        for i, p in enumerate(S.d_programs()):
             if i % shard[2] == shard[1]:
                 yield p
     elif fam == "C":
